@@ -1,18 +1,31 @@
 """C04: memory tiny-std's allocator holds from the OS is bounded by peak demand, not by history length.
 
 Oracle: (1) probes/alloc_probe, a no-libc executable running on the shipped global allocator (GlobalDlMalloc
-behind tiny-std's Mutex), repeats allocate-then-free-everything workloads (shape x free order x threads) and
-prints VmSize from /proc/self/statm at quiescence after every repetition; (2) engines/h_alloc (bin c04) runs the
-single-threaded shapes on a private Dlmalloc and prints verif_stats().footprint (the allocator's own figure)
-next to the process' VmSize. Rules, on logical quantities only:
+behind tiny-std's Mutex), prints VmSize from /proc/self/statm; (2) engines/h_alloc (bin c04) runs the
+single-threaded workloads on a private Dlmalloc and prints verif_stats().footprint (the allocator's own figure)
+next to the process' VmSize. Workload families:
+  repeat  : allocate-then-free-everything shapes x free orders x threads, sampled at quiescence after every repetition
+  steady  : a BOUNDED live set (<= 64 objects) of fixed-size / few-size objects replaced one by one (FIFO / LIFO bursts /
+            random) for >= 20000 steps, after a primer that carves a freed block so that the remainder (dv, or a binned
+            chunk) is exactly / one granule below / above the hot chunk size; sampled with the live set full
+  faults  : the large shapes (round = 8 MiB, 3 MiB, 5 MiB allocated and freed in turn; large; ladder; mixed) under the
+            ptrace monitor sysmon, which makes mremap and/or munmap FAIL (all calls, or the k-th call) while the
+            allocator trims and releases: the books must stay consistent with what the kernel really maps
+Rules, on logical quantities only:
   non-growth: held(i) <= max(held(0..W)) + S + F for all i >= W      (W = 3, S = 2 MiB trim threshold + 64 KiB)
               F = 2*peak_live: what is still mapped at quiescence legitimately wanders between ~0 and the peak
               footprint (whether the last free triggers the trim / segment release depends on the segment
-              layout, which the kernel's 2 MiB alignment of large mappings and thread stacks keep changing)
+              layout, which the kernel's 2 MiB alignment of large mappings and thread stacks keep changing);
+              + 2 MiB + 64 KiB per thread for samples taken while threads are alive (steady, threads > 1)
   absolute  : max held <= 8*peak_live + 64 MiB
+  books     : VmSize - footprint (private allocator) does not grow by more than 256 KiB after warm-up
 """
 import json
+import os
+import shutil
+import tempfile
 
+import syslog
 import vlib
 
 PROBE = "probes/alloc_probe"
@@ -20,11 +33,18 @@ CRATE = "engines/h_alloc"
 PAGE = 4096
 W = 3
 S = 2 * 1024 * 1024 + 64 * 1024
-SHAPES = ["small", "large", "mixed", "overaligned", "ladder"]
+STACK = 2 * 1024 * 1024 + 64 * 1024
+SHAPES = ["small", "large", "mixed", "overaligned", "ladder", "round"]
 ORDERS = ["lifo", "fifo", "random"]
 # repetitions per shape: (quick, thorough single-threaded, thorough threaded)
 REPS = {"small": (3000, 60000, 60000), "overaligned": (1500, 8000, 20000), "mixed": (500, 4000, 4000),
-        "ladder": (120, 1500, 1500), "large": (200, 2000, 2000)}
+        "ladder": (120, 1500, 1500), "large": (200, 2000, 2000), "round": (150, 1500, 1500)}
+# hot chunk sizes of the steady-state family: small-bin classes (< 256) and tree-bin classes
+STEADY_CHUNKS_QUICK = [48, 240, 272, 1024, 4112, 16384]
+STEADY_CHUNKS_THOROUGH = [32, 48, 64, 128, 240, 256, 272, 384, 512, 768, 1024, 1536, 2048, 4112, 8192, 16384, 65536]
+STEADY_PRIMERS = [("dv", 0), ("dv", -16), ("dv", 16), ("bin", 0), ("none", 0)]
+ENOMEM, EFAULT, EINVAL = -12, -14, -22
+ALL = 1_000_000_000
 
 
 def _build():
@@ -35,6 +55,7 @@ def _build():
 
 def setup():
     _build()
+    syslog.sysmon_bin()
 
 
 def parse(out):
@@ -53,7 +74,7 @@ def parse(out):
             if len(p) >= 5:
                 vm.append(int(p[4]) * PAGE)
         elif p[0] == "S" and len(p) >= 4:
-            summ = (int(p[1]), int(p[2]), int(p[3]))
+            summ = (int(p[1]), int(p[2]), int(p[3]), int(p[4]) if len(p) >= 5 else 0)
     return held, vm, failed, summ
 
 
@@ -69,25 +90,38 @@ def slope_last_half(series):
     return sum((x - mx) * (y - my) for x, y in zip(xs, ys)) / den if den else 0.0
 
 
-def judge(ck, wl, series, peak_live, threads, what):
-    """apply both rules to one held-series; returns True if a violation was reported"""
-    F = 2 * peak_live
+def family(wl):
+    if wl.get("inject"):
+        return "faults"
+    return "steady" if wl["shape"] == "steady" else "repeat"
+
+
+def sig_prefix(wl, threads):
+    inj = ""
+    if wl.get("inject"):
+        inj = "/" + "+".join(sorted({syslog.NAME.get(int(i.split(":")[3]), "sys") + "-fails" for i in wl["inject"]}))
+    return "C04/%s%s/%s" % (wl["shape"], inj, "threads" if threads > 1 else "single-thread")
+
+
+def judge(ck, wl, series, peak_live, threads, what, stacks_alive=False):
+    """apply the non-growth and the absolute rule to one held-series; True if a violation was reported"""
+    F = 2 * peak_live + (threads * STACK if stacks_alive else 0)
     ref = max(series[:W])
     limit = ref + S + F
     bad = False
+    unit = "steps" if wl["shape"] == "steady" else "repetitions"
     for i in range(W, len(series)):
         if series[i] > limit:
-            tail = series[-1]
-            ck.violation("C04/%s/%s/held-grows-with-repetitions" % (wl["shape"], "threads" if threads > 1 else "single-thread"),
-                         {"workload": wl, "measured": what, "first_repetition_over_limit": i, "held_there": series[i],
-                          "max_of_first_%d" % W: ref, "slack_S": S, "schedule_allowance_F": F, "peak_live_bytes": peak_live,
-                          "held_first_6": series[:6], "held_last_6": series[-6:], "held_last": tail,
-                          "growth_per_repetition_last_half": round(slope_last_half(series), 1)})
+            ck.violation("%s/held-grows-with-%s" % (sig_prefix(wl, threads), unit),
+                         {"workload": wl, "measured": what, "first_sample_over_limit": i, "held_there": series[i],
+                          "max_of_first_%d" % W: ref, "slack_S": S, "allowance_F": F, "peak_live_bytes": peak_live,
+                          "held_first_6": series[:6], "held_last_6": series[-6:], "held_last": series[-1],
+                          "growth_per_sample_last_half": round(slope_last_half(series), 1)})
             bad = True
             break
     mx = max(series)
-    if mx > 8 * peak_live + (64 << 20):
-        ck.violation("C04/%s/%s/held-exceeds-8x-peak-live-plus-64MiB" % (wl["shape"], "threads" if threads > 1 else "single-thread"),
+    if mx > 8 * peak_live + (64 << 20) + (threads * STACK if stacks_alive else 0):
+        ck.violation("%s/held-exceeds-8x-peak-live-plus-64MiB" % sig_prefix(wl, threads),
                      {"workload": wl, "measured": what, "max_held": mx, "peak_live_bytes": peak_live})
         bad = True
     return bad
@@ -96,20 +130,39 @@ def judge(ck, wl, series, peak_live, threads, what):
 def run(ck, replay=None):
     quick = ck.tier == "quick"
     probe, harn = _build()
+    sysmon = syslog.sysmon_bin()
     rng = vlib.rng(ck.seed, "c04")
+    tmp = tempfile.mkdtemp(prefix="c04-")
     jobs, meta = [], []
 
-    def add(kind, shape, order, threads, mode, reps, seed):
-        wl = dict(runner=kind, shape=shape, order=order, threads=threads, frees="by main after join" if mode == "handoff" else "by allocating thread",
-                  reps=reps, seed=seed)
-        if kind == "probe":
-            argv = [probe, shape, order, str(threads), str(reps), str(seed), mode]
-            wl["replay"] = " ".join(argv)
+    def add(wl):
+        """wl: runner, shape, order, threads, frees, reps, seed [, steady{chunk,mix,primer,delta}] [, inject[..]]"""
+        mode = "handoff" if "main" in wl["frees"] else "own"
+        if wl["shape"] == "steady":
+            st = wl["steady"]
+            if wl["runner"] == "probe":
+                argv = [probe, "steady", str(st["chunk"]), str(st["mix"]), wl["order"], st["primer"], str(st["delta"]),
+                        str(wl["threads"]), str(wl["reps"]), str(wl["seed"])]
+            else:
+                argv = [harn, "fp", str(wl["seed"]), str(wl["reps"]), "steady", str(st["chunk"]), str(st["mix"]), wl["order"],
+                        st["primer"], str(st["delta"])]
+        elif wl["runner"] == "probe":
+            argv = [probe, wl["shape"], wl["order"], str(wl["threads"]), str(wl["reps"]), str(wl["seed"]), mode]
         else:
-            argv = [harn, "fp", str(seed), str(reps), shape, order]
-            wl["replay"] = " ".join(argv)
+            argv = [harn, "fp", str(wl["seed"]), str(wl["reps"]), wl["shape"], wl["order"]]
+        if wl.get("inject"):
+            wl["log"] = os.path.join(tmp, "sysmon-%d.log" % len(jobs))
+            argv = syslog.sysmon_cmd(wl["log"], argv, injects=wl["inject"], timeout_s=300 if quick else 3000,
+                                     idle_ms=0, scope_markers=True, sysmon=sysmon)
+        wl["replay"] = " ".join(argv)
         jobs.append(dict(argv=argv, timeout=600 if quick else 7200))
         meta.append(wl)
+
+    def base(runner, shape, order, threads, mode, reps, seed, **kw):
+        d = dict(runner=runner, shape=shape, order=order, threads=threads,
+                 frees="by main after join" if mode == "handoff" else "by allocating thread", reps=reps, seed=seed)
+        d.update(kw)
+        return d
 
     if replay:
         wl = json.load(open(replay)).get("detail", {}).get("workload")
@@ -117,89 +170,182 @@ def run(ck, replay=None):
         if not wl:
             ck.note_inconclusive("replay file %s names no workload" % replay)
         else:
-            add(wl["runner"], wl["shape"], wl["order"], wl["threads"], "handoff" if "main" in wl["frees"] else "own", wl["reps"], wl["seed"])
-    for shape in ([] if replay else SHAPES):
-        q, t1, tn = REPS[shape]
-        for order in ORDERS:
-            seed = rng.randrange(1, 1 << 30)
-            add("probe", shape, order, 1, "own", q if quick else t1, seed)
-            add("harness", shape, order, 1, "own", q if quick else t1, seed)
-        # threads through the global allocator
-        combos = [(2, "own", "random"), (4, "handoff", "fifo"), (8, "own", "lifo")] if quick else \
-                 [(t, m, o) for t in (2, 3, 4, 8) for m in ("own", "handoff") for o in ORDERS]
-        for threads, mode, order in combos:
-            reps = max(20, q // 2) if quick else (tn if threads == 2 and mode == "own" and order == "random" else max(q, tn // 10))
-            add("probe", shape, order, threads, mode, reps, rng.randrange(1, 1 << 30))
-    # longest first
-    order_ix = sorted(range(len(jobs)), key=lambda i: -meta[i]["reps"] * (1 + meta[i]["threads"]))
+            wl = {k: v for k, v in wl.items() if k not in ("replay", "log")}
+            add(wl)
+    else:
+        # ---- family 1: allocate-then-free-everything, repeated --------------------------------------
+        for shape in SHAPES:
+            q, t1, tn = REPS[shape]
+            for order in ORDERS:
+                seed = rng.randrange(1, 1 << 30)
+                add(base("probe", shape, order, 1, "own", q if quick else t1, seed))
+                add(base("harness", shape, order, 1, "own", q if quick else t1, seed))
+            combos = [(2, "own", "random"), (4, "handoff", "fifo"), (8, "own", "lifo")] if quick else \
+                     [(t, m, o) for t in (2, 3, 4, 8) for m in ("own", "handoff") for o in ORDERS]
+            for threads, mode, order in combos:
+                reps = max(20, q // 2) if quick else (tn if threads == 2 and mode == "own" and order == "random" else max(q, tn // 10))
+                add(base("probe", shape, order, threads, mode, reps, rng.randrange(1, 1 << 30)))
+        # ---- family 2: bounded live set in steady state, primed remainders ---------------------------
+        n = 0
+        for chunk in (STEADY_CHUNKS_QUICK if quick else STEADY_CHUNKS_THOROUGH):
+            for primer, delta in STEADY_PRIMERS:
+                for order in ORDERS:
+                    for mix in ((n % 2,) if quick else (0, 1)):
+                        n += 1
+                        seed = rng.randrange(1, 1 << 30)
+                        st = dict(chunk=chunk, mix=mix, primer=primer, delta=delta)
+                        for runner in ("probe", "harness"):
+                            add(base(runner, "steady", order, 1, "own", 3 if quick else 10, seed, steady=st))
+        for chunk, threads, order in ([(1024, 2, "fifo"), (272, 4, "random")] if quick else
+                                      [(c, t, o) for c in (64, 272, 1024, 4112) for t in (2, 4, 8) for o in ORDERS]):
+            st = dict(chunk=chunk, mix=0, primer="dv", delta=0)
+            add(base("probe", "steady", order, threads, "own", 2 if quick else 6, rng.randrange(1, 1 << 30), steady=st))
+        # ---- family 3: mremap / munmap made to fail by sysmon while the allocator trims / releases ----
+        def inj(nr, k, ret, count):
+            return "4:*:1:%d:%d:%d:%d" % (syslog.NR[nr], k, ret, count)
+        plans = [[inj("mremap", 0, ENOMEM, ALL)], [inj("mremap", 0, EFAULT, ALL)],
+                 [inj("munmap", 0, ENOMEM, ALL)], [inj("munmap", 0, EINVAL, ALL)],
+                 [inj("mremap", 0, ENOMEM, ALL), inj("munmap", 0, ENOMEM, ALL)]]
+        for k in ((0, 1, 3) if quick else range(0, 12)):
+            plans.append([inj("mremap", k, ENOMEM, 1)])
+            plans.append([inj("munmap", k, ENOMEM, 1)])
+            plans.append([inj("mremap", k, EFAULT, 2), inj("munmap", k // 2, ENOMEM, 1)])
+        fshapes = [("round", 60), ("large", 40), ("ladder", 30)] if quick else [("round", 400), ("large", 200), ("ladder", 120), ("mixed", 300)]
+        for shape, reps in fshapes:
+            for pi, plan in enumerate(plans):
+                order = ORDERS[pi % 3]
+                seed = rng.randrange(1, 1 << 30)
+                add(base("harness", shape, order, 1, "own", reps, seed, inject=plan))
+                if quick and shape != "round" and pi >= 5:
+                    continue
+                add(base("probe", shape, order, 1, "own", reps, seed, inject=plan))
+            # threads: only mremap is failed (an exiting thread unmaps its own stack with munmap)
+            add(base("probe", shape, "random", 2, "own", reps, rng.randrange(1, 1 << 30), inject=plans[0]))
+
+    def weight(i):
+        w = meta[i]
+        return -(w["reps"] * (1 + w["threads"]) * (40 if w["shape"] == "steady" else 1) * (3 if w.get("inject") else 1))
+    order_ix = sorted(range(len(jobs)), key=weight)
     res = vlib.run_parallel([jobs[i] for i in order_ix])
-    total_reps = 0
     churn = 0
+    injected_total = {}
     for i, r in zip(order_ix, res):
         wl = meta[i]
-        label = "%s %s/%s/t%d/%s" % (wl["runner"], wl["shape"], wl["order"], wl["threads"], "handoff" if "main" in wl["frees"] else "own")
-        if r["timed_out"]:
+        fam = family(wl)
+        st = wl.get("steady")
+        label = "%s %s %s/%s/t%d%s%s" % (fam, wl["runner"], wl["shape"], wl["order"], wl["threads"],
+                                         "/chunk%d/%s%+d/mix%d" % (st["chunk"], st["primer"], st["delta"], st["mix"]) if st else "",
+                                         "/inject " + ",".join(wl["inject"]) if wl.get("inject") else "")
+        if r["timed_out"] or r["rc"] == 124:
             ck.note_inconclusive("%s: watchdog after %.0fs" % (label, r["wall"]))
             continue
         ck.consume(r["out"], context=label)  # '@@VIOL' from the harness' crash handler, if any
         held, vm, failed, summ = parse(r["out"])
+        # what did the monitor really inject?
+        ninj = {}
+        if wl.get("inject"):
+            try:
+                for e in syslog.parse(wl["log"]):
+                    if e.k == "S" and e.inj:
+                        nm = syslog.NAME.get(e.nr, str(e.nr))
+                        ninj[nm] = ninj.get(nm, 0) + 1
+            except OSError:
+                pass
+            wl["calls_failed_by_monitor"] = ninj
+            wl.pop("log", None)
         if r["rc"] != 0:
-            if r["rc"] is not None and r["rc"] < 0 and wl["runner"] == "probe":
+            if r["rc"] is not None and (r["rc"] < 0 or 128 < r["rc"] < 160) and wl["runner"] == "probe":
                 # the probe consists of the allocator, the thread runtime and a loop touching its own blocks
-                ck.violation("C04/%s/probe-killed-by-signal" % wl["shape"], {"workload": wl, "signal": -r["rc"],
-                                                                            "repetitions_completed": len(held), "stderr": r["err"][-500:]})
+                ck.violation("%s/probe-killed-by-signal" % sig_prefix(wl, wl["threads"]),
+                             {"workload": wl, "status": r["rc"], "samples_completed": len(held), "stderr": r["err"][-500:]})
             elif r["rc"] != 3:
                 ck.note_inconclusive("%s: exit status %s; stderr tail: %s" % (label, r["rc"], r["err"][-300:]))
             continue
-        if summ is None or len(held) < wl["reps"] or len(held) <= W + 2:
-            ck.note_inconclusive("%s: incomplete output (%d of %d repetitions)" % (label, len(held), wl["reps"]))
+        need = wl["reps"] * (12 if st else 1)
+        if summ is None or len(held) < need or len(held) <= W + 2:
+            ck.note_inconclusive("%s: incomplete output (%d of %d samples)" % (label, len(held), need))
             continue
-        peak_live, churned, calls = summ
+        peak_live, churned, calls, primed = summ
         if failed:
             # an allocation failed (null / misaligned / spawn error): the workload was not the intended one
+            # (legitimate when the monitor fails munmap/mremap? no: neither is on an allocation path that may fail)
             ck.note_inconclusive("%s: %d calls failed inside the workload" % (label, failed))
             continue
-        bad = judge(ck, wl, held, peak_live, wl["threads"], "VmSize above baseline" if wl["runner"] == "probe" else "Dlmalloc footprint")
-        if vm and not bad:
-            # the allocator's own figure must not hide growth that the OS sees: VmSize - footprint (what is mapped
-            # but not accounted for; the harness' own libc heap is in there, it settles during warm-up) moves
-            # independently of what the allocator legitimately retains (measured: constant), so it gets a tight rule (256 KiB slack)
+        if wl.get("inject") and not ninj:
+            ck.count("fault_runs_where_the_call_never_happened")
+        alive = bool(st) and wl["threads"] > 1
+        bad = judge(ck, wl, held, peak_live, wl["threads"], "VmSize above baseline" if wl["runner"] == "probe" else "Dlmalloc footprint",
+                    stacks_alive=alive)
+        if vm:
+            # the allocator's own figure must not hide what the OS still maps: VmSize - footprint (the harness' own libc
+            # heap is in there, it settles during warm-up) is independent of what the allocator legitimately retains
+            # (measured: constant 0), so it gets a tight rule
             diff = [v - h for v, h in zip(vm, held)]
             ref = max(diff[:W])
             for k in range(W, len(diff)):
                 if diff[k] > ref + (256 << 10):
-                    ck.violation("C04/%s/single-thread/mapped-memory-not-in-footprint-grows" % wl["shape"],
-                                 {"workload": wl, "first_repetition_over_limit": k, "vmsize_minus_footprint_there": diff[k],
+                    ck.violation("%s/mapped-memory-not-in-footprint-grows" % sig_prefix(wl, 1),
+                                 {"workload": wl, "first_sample_over_limit": k, "vmsize_minus_footprint_there": diff[k],
                                   "max_of_first_%d" % W: ref, "last": diff[-1], "footprint_last": held[-1], "vmsize_last": vm[-1]})
+                    bad = True
                     break
-            judge(ck, wl, vm, peak_live, 1, "VmSize above baseline (harness process, next to footprint)")
-        total_reps += len(held)
+            if not bad:
+                judge(ck, wl, vm, peak_live, 1, "VmSize above baseline (harness process, next to footprint)")
         churn += churned
         ck.add_eval(len(held) - W)
-        ck.count("repetitions", len(held))
+        ck.count("samples_of_held_memory", len(held))
         ck.count("allocator_calls", calls)
-        ck.count("workloads_%s" % wl["runner"], 1)
+        ck.count("workloads_%s_%s" % (fam, wl["runner"]), 1)
         if wl["threads"] > 1:
-            ck.count("repetitions_multi_threaded", len(held))
+            ck.count("samples_multi_threaded", len(held))
+        if st:
+            ck.count("steady_steps", wl["reps"] * wl["threads"] * max(20000, (10 << 20) // st["chunk"]))
+            if st["primer"] != "none":
+                ck.count("primers_attempted", wl["reps"] * wl["threads"])
+                ck.count("primers_landed_on_the_prepared_block", primed)
+        for nm, c in ninj.items():
+            injected_total[nm] = injected_total.get(nm, 0) + c
+            ck.count("monitor_failed_%s_calls" % nm, c)
         plateau = "flat" if len(set(held[W:])) == 1 else ("within-S" if max(held[W:]) - min(held[W:]) <= S else "varies")
         trimmed = "retains" if min(held[W:]) > S else "trims"
-        ck.note_distinct("%s/%s/%s/t%d/%s/%s/%s" % (wl["runner"], wl["shape"], wl["order"], wl["threads"],
-                                                    "handoff" if "main" in wl["frees"] else "own", plateau, trimmed))
+        if st:
+            cls = "smallbin" if st["chunk"] < 256 else "treebin"
+            ck.note_distinct("steady/%s/%s/%s%+d/%s/mix%d/t%d/%s/%s" % (wl["runner"], cls, st["primer"], st["delta"], wl["order"], st["mix"],
+                                                                       wl["threads"], "primed" if primed else "unprimed", plateau))
+        elif wl.get("inject"):
+            kinds = "+".join(sorted("%s:%s" % (syslog.NAME.get(int(x.split(":")[3])), "all" if int(x.split(":")[6]) >= ALL else "kth") for x in wl["inject"]))
+            ck.note_distinct("faults/%s/%s/t%d/%s/%s/%s" % (wl["runner"], wl["shape"], wl["threads"], kinds, "hit" if ninj else "not-reached", plateau))
+        else:
+            ck.note_distinct("%s/%s/%s/t%d/%s/%s/%s" % (wl["runner"], wl["shape"], wl["order"], wl["threads"],
+                                                        "handoff" if "main" in wl["frees"] else "own", plateau, trimmed))
         ck.sample({"workload": wl, "peak_live_bytes": peak_live, "held_first": held[0], "held_at_W": held[W], "held_last": held[-1],
                    "held_max": max(held), "held_min_after_W": min(held[W:]), "ratio_max_held_to_peak_live": round(max(held) / max(1, peak_live), 2),
-                   "growth_per_repetition_last_half": round(slope_last_half(held), 2), "bytes_churned": churned},
-                  key="%s/%s/%s" % (wl["runner"], wl["shape"], wl["threads"] > 1))
+                   "growth_per_sample_last_half": round(slope_last_half(held), 2), "bytes_churned": churned},
+                  key="%s/%s/%s/%s" % (fam, wl["runner"], wl["shape"], wl["threads"] > 1))
+    shutil.rmtree(tmp, ignore_errors=True)
     ck.extra["bytes_churned"] = churn
-    ck.extra["rules"] = {"W": W, "S": S, "non_growth": "held(i) <= max(held(0..W)) + S + F, F = 2*peak_live (legitimate retention at quiescence)",
-                         "absolute": "max held <= 8*peak_live + 64 MiB"}
+    ck.extra["calls_failed_by_monitor"] = injected_total
+    ck.extra["rules"] = {"W": W, "S": S, "non_growth": "held(i) <= max(held(0..W)) + S + F, F = 2*peak_live (legitimate retention) "
+                         "+ 2 MiB + 64 KiB per live thread stack",
+                         "absolute": "max held <= 8*peak_live + 64 MiB",
+                         "books": "VmSize - footprint grows by at most 256 KiB after warm-up (private allocator)"}
     ck.exhaustive = False
-    ck.assume("held = VmSize(/proc/self/statm) minus the value at program start, sampled with every block freed and every thread joined "
-              "(thread stacks are unmapped by the exiting thread before the join futex is released)")
+    ck.assume("held = VmSize(/proc/self/statm) minus the value at program start; repeat-family samples are taken with every block freed and "
+              "every thread joined (thread stacks are unmapped by the exiting thread before the join futex is released), steady-family samples "
+              "with the bounded live set in place (and, with threads, the other threads running: their stacks are allowed for)")
     ck.assume("dlmalloc legitimately keeps freed segments, trims top only above 2 MiB and scans for releasable segments every 4095 large frees; "
               "what stays mapped at quiescence legitimately varies between ~0 and the peak footprint, so only growth beyond "
               "S + 2*peak_live over the warm-up level and gross excess over peak demand are refuted")
-    ck.assume("a leak smaller than (S + F) / repetitions per repetition is not visible; thorough runs 20000 (small) / 2000 (large) repetitions")
-    return ("workload = shape {small, large, mixed, over-aligned, realloc ladder} x free order {LIFO, FIFO, pseudo-random reseeded per repetition} "
-            "x {1 thread; 2-8 threads freeing their own blocks or handing them to main}, each repeated N times (quick 50-300, thorough up to "
-            "60000); single-threaded shapes also on a private Dlmalloc (footprint + VmSize); distinct = (runner, shape, order, threads, "
-            "hand-off, plateau class, trims/retains) cells")
+    ck.assume("a leak smaller than (S + F) / N per repetition or step is not visible; thorough runs 60000 (small) / 2000 (large) repetitions, "
+              "steady runs enough steps for one lost chunk per step to add up to 10 MiB")
+    ck.assume("steady primers are black-box: the prepared block and its guard must be adjacent by address and the carve must return the "
+              "prepared block's address, otherwise the heap's leftovers are kept and the attempt repeated; a primer that never lands is counted, not judged")
+    ck.assume("failures of mremap/munmap are produced by sysmon (the call is not executed and returns -ENOMEM/-EFAULT/-EINVAL), for all calls or "
+              "the k-th call after the workload's BEGIN marker; munmap is not failed in threaded probes (threads unmap their own stacks with it)")
+    return ("three families: (repeat) shape {small, large, mixed, over-aligned, realloc ladder, round} x free order {LIFO, FIFO, pseudo-random "
+            "reseeded per repetition} x {1 thread; 2-8 threads freeing their own blocks or handing them to main}, N repetitions (quick 120-3000, "
+            "thorough up to 60000); (steady) hot chunk size over small-bin and tree-bin classes x primer {remainder -> dv, -> bin, none} x "
+            "remainder {exact, -16, +16} x replacement {FIFO, LIFO bursts, random} x {fixed size, few sizes}, >= 20000 steps per repetition, "
+            "1 and 2-8 threads; (faults) large shapes with mremap/munmap failed by the monitor (all calls / k-th call / both); single-threaded "
+            "cases on the global allocator (VmSize) and on a private Dlmalloc (footprint next to VmSize); distinct = (family, runner, shape or "
+            "chunk class, primer, order, threads, hand-off, fault kind reached or not, plateau class) cells")
